@@ -8,6 +8,30 @@ from sx.vals import ZStr, NumStr, SymSeq
 DISCRIMINATORS = ("type", "xmlns", "class", "v", "mediatype", "encoding", "reason", "state", "value", "name", "action", "code", "media", "origin", "duplicate", "privacy", "kind")
 
 
+# several repository fixtures use placeholder discriminators ("notif_type", "iq_xmlns", "message_type"); where a stanza is
+# routed through the layers its real discriminator (the value the class's constructor sets) is needed
+REAL = {
+    "RequestKeysEncryptNotification": {"type": "encrypt"},
+    "SetPictureNotificationProtocolEntity": {"type": "picture"}, "DeletePictureNotificationProtocolEntity": {"type": "picture"},
+    "StatusNotificationProtocolEntity": {"type": "status"},
+    "TextMessageProtocolEntity": {"type": "text"}, "BroadcastTextMessage": {"type": "text"},
+    "MediaMessageProtocolEntity": {"type": "media"}, "ContactMediaMessageProtocolEntity": {"type": "media"},
+    "AudioDownloadableMediaMessageProtocolEntity": {"type": "media"}, "ImageDownloadableMediaMessageProtocolEntity": {"type": "media"},
+    "VideoDownloadableMediaMessageProtocolEntity": {"type": "media"}, "ExtendedTextMediaMessageProtocolEntity": {"type": "media"},
+    "LocationMediaMessageProtocolEntity": {"type": "media"},
+    "PresenceProtocolEntity": {"type": "available"},
+}
+
+
+def realistic(node, entity_name):
+    ov = REAL.get(entity_name)
+    if not ov:
+        return node
+    attrs = dict(node.attributes)
+    attrs.update(ov)
+    return N()(node.tag, attrs, list(node.children), node.data)
+
+
 def N():
     from yowsup.structs import ProtocolTreeNode
     return ProtocolTreeNode
